@@ -223,11 +223,15 @@ func (c *Coordinator) gcTargets(changeAbleShards []*shardInfo, active map[uint64
 				continue
 			}
 
+			heldByOther := false
 			for oi, other := range changeAbleShards {
 				if s == other {
 					continue
 				}
 				st := other.scraping[h]
+				if st != nil {
+					heldByOther = true
+				}
 				if st != nil && st.ScrapeTimes >= minWaitScrapeTimes {
 					// is in_transfer state and had been scraped by other shard
 					if tar.TargetState == target.StateInTransfer && st.TargetState == target.StateNormal {
@@ -248,6 +252,12 @@ func (c *Coordinator) gcTargets(changeAbleShards []*shardInfo, active map[uint64
 						}
 					}
 				}
+			}
+
+			// the destination of this move lost the target or never got it: nobody would ever complete the
+			// transfer and the target would stay in_transfer for ever
+			if !heldByOther && tar.TargetState == target.StateInTransfer {
+				tar.TargetState = target.StateNormal
 			}
 		}
 	}
